@@ -787,6 +787,7 @@ class Process:
         s = cext.proc_environ(self.pid)
         return parse_environ_block(s)
 
+    @wrap_exceptions
     def ppid(self):
         try:
             return ppid_map()[self.pid]
